@@ -30,17 +30,24 @@ def normalise_literal(s):
     return re.sub(r"\[([^\[\]]*(?:\[[^\[\]]*\][^\[\]]*)*)\]", sort_list, s)
 
 
-def digest(g):
+def digest1(g, as_sets):
     from rdflib import Literal, Graph
     from rdflib.compare import to_canonical_graph
     h = Graph()
     for s, p, o in g:
         if isinstance(o, Literal):
-            o = Literal(normalise_literal(str(o)))
+            o = Literal(normalise_literal(str(o)) if as_sets else re.sub(r"τ\d+", "τ", str(o)))
         h.add((s, p, o))
     c = to_canonical_graph(h)
     lines = sorted(f"{s.n3()} {p.n3()} {o.n3()}" for s, p, o in c)
     return hashlib.sha1("\n".join(lines).encode()).hexdigest()[:16], len(lines)
+
+
+def digest(g):
+    """(digest with bracketed constraint lists as sets, digest with their printed order kept) and the size"""
+    a, n = digest1(g, True)
+    b, _ = digest1(g, False)
+    return a + "/" + b, n
 
 
 def main():
@@ -73,7 +80,7 @@ def main():
                     TransformationGraph(lang).add_expr(e, BNode())
                 except Exception:  # noqa
                     pass
-            junk = [object() for _ in range(rng.randint(1, 2000))]
+            junk = [object() for _ in range(random.Random(seed + li).randint(1, 2000))]
         # vocabulary (labels, signatures)
         for closure in (False, True):
             try:
